@@ -1,0 +1,71 @@
+//go:build verif
+
+package identity
+
+// Machine-checked contracts for /verif (govc). Comment-only, compiled only
+// with -tags verif; changes no behaviour.
+
+// ---- C34: the stored identity survives a crash at any point ----
+//
+// File-system discipline (os.Rename is the only atomic step; os.WriteFile truncates and then writes, so a
+// crash in the middle leaves a partial file): a live file (agent_key, agent_key.pub, agent_id) is never
+// written in place - every WriteFile goes to "<live>.tmp" and the live name only ever receives a completely
+// written temporary file through Rename, the private key before the public key. Every crash point therefore
+// leaves, for each live file, either its old content or its complete new content. Recovery: LoadKeypair
+// accepts a present private key with a missing public key file (derives the public key), and
+// LoadOrCreateKeypair generates a new identity only if the private key file does not exist.
+
+//@ func (*Keypair).Store
+//@ prop C34
+//@ after call os.WriteFile#0 let w0 = $ret
+//@ after call os.WriteFile#1 let w1 = $ret
+//@ after call os.Rename#0 let r0 = $ret
+//@ at call os.WriteFile assert hassuffix($0, ".tmp")
+//@ at call os.WriteFile#0 assert $0 == privTempPath
+//@ at call os.WriteFile#1 assert $0 == pubTempPath && w0 == nil && r0 == nil
+//@ at call os.Rename#0 assert w0 == nil && $0 == privTempPath && $1 == privPath && hassuffix($0, ".tmp") && len($0) == len($1) + 4 && hasprefix($0, $1)
+//@ at call os.Rename#1 assert w1 == nil && r0 == nil && $0 == pubTempPath && $1 == pubPath && len($0) == len($1) + 4 && hasprefix($0, $1)
+//@ census[C34] os.WriteFile in (*Keypair).Store, AgentID.Store
+//@ census[C34] os.Rename in (*Keypair).Store, AgentID.Store
+
+//@ func AgentID.Store
+//@ prop C34
+//@ after call os.WriteFile let w0 = $ret
+//@ at call os.WriteFile assert hassuffix($0, ".tmp") && $0 == tempPath
+//@ at call os.Rename assert w0 == nil && $0 == tempPath && $1 == filePath && len($0) == len($1) + 4 && hasprefix($0, $1)
+
+//@ func LoadKeypair
+//@ prop C34
+//@ modifies *
+//@ ensures err == nil ==> result != nil && result.PublicKey == pubOf(result.PrivateKey)
+//@ note a keypair is returned only if the public key is the one derived from the private key: either the stored public key equals the derived one, or (public key file missing) the derived one is used
+
+//@ func LoadOrCreateKeypair
+//@ prop C34
+//@ modifies *
+//@ after call LoadKeypair let loadErr = $ret1
+//@ after call os.Stat let statErr = $ret1
+//@ after call os.IsNotExist let missing = $ret
+//@ at call os.Stat assert loadErr != nil && $0 == pathJoin2(dataDir, "agent_key")
+//@ at call os.IsNotExist assert $0 == statErr
+//@ at call NewKeypair assert missing
+//@ at call (*Keypair).Store assert missing && $1 == dataDir
+//@ ensures err == nil ==> result0 != nil && result0.PublicKey == pubOf(result0.PrivateKey)
+//@ note a new identity is generated, and the key files are written, only after os.Stat reported that the private key file does not exist
+
+//@ func NewKeypair
+//@ prop C34
+//@ modifies *
+//@ ensures err == nil ==> result != nil && result.PublicKey == pubOf(result.PrivateKey)
+
+//@ func DerivePublicKey
+//@ prop C34
+//@ ensures result == pubOf(privateKey)
+
+//@ func KeyToString
+//@ prop C34
+//@ note pure (hex rendering of a key); the empty contract states that it changes no program state
+
+//@ func IsZeroKey
+//@ prop C34
+//@ ensures result <==> key == ZeroKey
